@@ -133,8 +133,24 @@ def check_program(prog, cap):
         routed.update(names)
     shared = suppview.shared_reads(src, d.filename, proj)
     for rid, pos, name, outcomes in d.reads():
-        if not outcomes or name in routed:
-            continue        # names rebound through global/nonlocal declarations are inter-procedural: not C03's subject
+        if outcomes and name in routed:
+            # names rebound through global/nonlocal declarations are inter-procedural: the definitions are not C03's subject.
+            # One clause still applies: a read of a name its own scope declares `global`, which nothing binds at module level
+            # (no module-level site, none routed there by a declaration, no star import, not a builtin), is unbound on every
+            # path whatever the enclosing FUNCTIONS bind - lint must say Undefined name
+            rs = ins.read_scope[rid]
+            if (name in ins.global_decl.get(rs, ()) and name not in BUILTIN_NAMES and not has_star
+                    and not any(sc in (0, -2) for site, sc in sites_by_name.get(name, []))
+                    and all(oc == 'unbound' for oc, s_ in outcomes)):
+                info['checked_reads'] += 1
+                if (pos[0], pos[1], name) not in lv['E02']:
+                    problems.append(('never-bound-not-flagged:global-declared-read',
+                                     'read %s at %s: declared global in its function, bound nowhere at module level, unbound on every path, '
+                                     'but lint does not report Undefined name (bindings of that identifier in other scopes: %s)' % (
+                                         name, pos, sorted(site for site, sc in sites_by_name.get(name, [])))))
+            continue
+        if not outcomes:
+            continue
         rscope = ins.read_scope[rid]
         fresh0 = suppview.fresh_read(src, d.filename, proj, pos)
         if fresh0 == 'E42':
